@@ -245,7 +245,7 @@ def run(R, ctx):
                       "guard polarity is checked for the if/else and `!guard` idioms the repository uses"]
     guard(R, ctx)
     hoist(R, ctx)
-    c17.tail_only(R, ctx, "C01.order", ["utils::expressions_as_statement::expressions_as_statement"])
+    c17.eval_order(R, ctx, "C01.order")
     reach_and_list(R, ctx)
     from .. import loops
     loops.index_removal_rule(R, ctx, "C01.index")
